@@ -109,7 +109,13 @@ func canonBin(t *Term) *Term {
 			return c
 		}
 		t = canonBitTest(t)
-		return canonLinearCmp(t)
+		t = canonLinearCmp(t)
+		if len(t.Args) == 2 && cmpOps[t.Name] {
+			if c := canonIndCmp(t); c != nil {
+				return c
+			}
+		}
+		return t
 	}
 	bits, signed, ok := intKind(termType(t))
 	_ = bits
@@ -126,19 +132,24 @@ func canonBin(t *Term) *Term {
 			}
 		}
 	}
+	if c := canonIndShift(t); c != nil {
+		return c
+	}
+	// (y * a) / b with a | b  →  y / (b/a)   (lengths and sizes: no overflow)
+	if t.Name == "/" && l.Op == "bin" && l.Name == "*" {
+		if bv, ok := isConstInt(r); ok && bv.Sign() > 0 {
+			if av, ok := isConstInt(l.Args[1]); ok && av.Sign() > 0 && new(big.Int).Mod(bv, av).Sign() == 0 {
+				q := new(big.Int).Quo(bv, av)
+				if q.Cmp(big.NewInt(1)) == 0 {
+					return l.Args[0]
+				}
+				return canonBin(&Term{Op: "bin", Name: "/", V: t.V, Args: []*Term{l.Args[0], mkConst(q, r.V)}})
+			}
+		}
+	}
 	if signed && (t.Name == "+" || t.Name == "-") {
 		if c := canonLinearVal(t); c != nil {
 			return c
-		}
-	}
-	// (ind<+k>(c)) + k  →  ind<+k>(c+k)
-	if t.Name == "+" && l.Op == "ind" && len(l.Args) == 1 {
-		if step, ok := parseStep(l.Name); ok {
-			if cv, isC := isConstInt(r); isC && cv.Cmp(step) == 0 {
-				if c0, isC0 := isConstInt(l.Args[0]); isC0 {
-					return &Term{Op: "ind", Name: l.Name, V: t.V, Args: []*Term{mkConst(new(big.Int).Add(c0, step), l.Args[0].V)}}
-				}
-			}
 		}
 	}
 	return t
@@ -412,6 +423,16 @@ func canonBitTest(t *Term) *Term {
 		return t
 	}
 	x, m := l.Args[0], l.Args[1]
+	// x & 2^(w-1) ⋚ 0 for an unsigned w-bit x: the top-bit test is the threshold test x ⋚ 2^(w-1)
+	if mc, ok := isConstInt(m); ok && rc.Sign() == 0 {
+		if bits, signed, okT := intKind(termType(x)); okT && !signed && bits > 0 && log2(mc) == bits-1 {
+			op := ">="
+			if t.Name == "==" {
+				op = "<"
+			}
+			return &Term{Op: "bin", Name: op, V: t.V, Args: []*Term{x, mkConst(mc, m.V)}}
+		}
+	}
 	// x & (1<<i) ⋚ 0  →  (x>>i)&1 ⋚ 0
 	if rc.Sign() == 0 {
 		for k := 0; k < 2; k++ {
@@ -646,14 +667,6 @@ var _ ssa.Value
 // canonLinearVal rewrites a signed sum into Σ(+atoms) − Σ(−atoms) ± k with
 // sorted atoms, so `243-(s-1)`, `243-s+1` and `244-s` are one term.
 func canonLinearVal(t *Term) *Term {
-	// the range-index rule has priority
-	if t.Name == "+" && t.Args[0].Op == "ind" {
-		if step, ok := parseStep(t.Args[0].Name); ok {
-			if cv, isC := isConstInt(t.Args[1]); isC && cv.Cmp(step) == 0 {
-				return nil
-			}
-		}
-	}
 	ln := newLinear()
 	ln.add(t, big.NewInt(1))
 	var pos, neg []string
@@ -703,4 +716,58 @@ func canonLinearVal(t *Term) *Term {
 	}
 	acc.V = t.V
 	return acc
+}
+
+// canonIndShift: (i ± d) for a counter i = ind<s>(init) and a constant d is the
+// counter ind<s>(init ± d): `for i := n; i >= 1; i-- { x[i-1] }` and
+// `for i := n-1; i >= 0; i-- { x[i] }` index with the same term.
+func canonIndShift(t *Term) *Term {
+	if t.Name != "+" && t.Name != "-" {
+		return nil
+	}
+	l, r := t.Args[0], t.Args[1]
+	d, isC := isConstInt(r)
+	if l.Op != "ind" || len(l.Args) != 1 || !isC {
+		return nil
+	}
+	if _, ok := parseStep(l.Name); !ok {
+		return nil
+	}
+	if t.Name == "-" {
+		d = new(big.Int).Neg(d)
+	}
+	init := l.Args[0]
+	var ninit *Term
+	if c0, ok := isConstInt(init); ok {
+		ninit = mkConst(new(big.Int).Add(c0, d), init.V)
+	} else {
+		_, signed, ok := intKind(termType(init))
+		if !ok || !signed {
+			return nil
+		}
+		sum := &Term{Op: "bin", Name: "+", V: init.V, Args: []*Term{init, mkConst(d, nil)}}
+		ninit = canonLinearVal(sum)
+		if ninit == nil {
+			ninit = sum
+		}
+	}
+	return &Term{Op: "ind", Name: l.Name, V: t.V, Args: []*Term{ninit}}
+}
+
+// canonIndCmp: a descending counter compared with a non-zero constant k is the shifted counter compared with 0.
+func canonIndCmp(t *Term) *Term {
+	l, r := t.Args[0], t.Args[1]
+	k, isC := isConstInt(r)
+	if !isC || k.Sign() == 0 || l.Op != "ind" || len(l.Args) != 1 {
+		return nil
+	}
+	step, ok := parseStep(l.Name)
+	if !ok || step.Sign() >= 0 {
+		return nil
+	}
+	sh := canonIndShift(&Term{Op: "bin", Name: "-", V: l.V, Args: []*Term{l, r}})
+	if sh == nil {
+		return nil
+	}
+	return &Term{Op: "bin", Name: t.Name, V: t.V, Args: []*Term{sh, mkConst(big.NewInt(0), r.V)}}
 }
